@@ -158,6 +158,136 @@ impl<B: MkBuf> System for RingSys<B> {
     }
 }
 
+// ------------------------------------------------- zero-sized elements
+// The same push / pop enumeration with a zero-sized element type that has a `Drop` impl: pointer
+// arithmetic, `size_of`-based fast paths and `VecDeque::capacity()` (which is usize::MAX for a
+// ZST) behave differently from every sized payload.
+
+thread_local! {
+    static ZDROPS: std::cell::Cell<usize> = std::cell::Cell::new(0);
+}
+pub struct ZTag;
+impl Drop for ZTag {
+    fn drop(&mut self) {
+        ZDROPS.with(|c| c.set(c.get() + 1));
+    }
+}
+fn zdrops() -> usize {
+    ZDROPS.with(|c| c.get())
+}
+
+pub trait MkZBuf: RingBuf<Item = ZTag> + 'static {
+    fn mk(cap: usize) -> Self;
+}
+impl<const N: usize> MkZBuf for ArrayBuf<ZTag, [ZTag; N]>
+where
+    [ZTag; N]: futures_intrusive::buffer::RealArray<ZTag> + AsMut<[ZTag]> + AsRef<[ZTag]>,
+{
+    fn mk(cap: usize) -> Self {
+        assert_eq!(cap, N);
+        Self::new()
+    }
+}
+impl MkZBuf for FixedHeapBuf<ZTag> {
+    fn mk(cap: usize) -> Self {
+        Self::with_capacity(cap)
+    }
+}
+impl MkZBuf for GrowingHeapBuf<ZTag> {
+    fn mk(cap: usize) -> Self {
+        Self::with_capacity(cap)
+    }
+}
+
+pub struct ZstRingSys<B: MkZBuf> {
+    buf: Option<B>,
+    stored: usize,
+    popped: Vec<ZTag>,
+    cap: usize,
+    steps: usize,
+    max_len: usize,
+    hist: Vec<u8>,
+}
+
+impl<B: MkZBuf> System for ZstRingSys<B> {
+    type Op = RingOp;
+    fn new(cfg: &Cfg) -> Self {
+        let cap = cfg.get("cap") as usize;
+        ZDROPS.with(|c| c.set(0));
+        ZstRingSys { buf: Some(B::mk(cap)), stored: 0, popped: Vec::with_capacity(64), cap, steps: 0, max_len: cfg.get("len") as usize, hist: vec![] }
+    }
+    fn enabled(&self) -> Vec<RingOp> {
+        let mut v = vec![];
+        if self.steps < self.max_len {
+            if self.stored < self.cap {
+                v.push(RingOp::Push);
+            }
+            if self.stored > 0 {
+                v.push(RingOp::Pop);
+            }
+        }
+        v
+    }
+    fn apply(&mut self, op: RingOp, out: &mut StepOut) {
+        self.steps += 1;
+        let b = self.buf.as_mut().unwrap();
+        match op {
+            RingOp::Push => {
+                self.hist.push(0);
+                match lib(|| b.push(ZTag)) {
+                    Ok(()) => self.stored += 1,
+                    Err(p) => out.v("C19", "panic", format!("push() of a zero-sized element panicked although can_push() must be true: {}", p)),
+                }
+            }
+            RingOp::Pop => {
+                self.hist.push(1);
+                match lib(|| b.pop()) {
+                    Ok(x) => {
+                        self.stored -= 1;
+                        self.popped.push(x);
+                    }
+                    Err(p) => out.v("C19", "panic", format!("pop() panicked although the buffer is not empty: {}", p)),
+                }
+            }
+        }
+        let b = self.buf.as_ref().unwrap();
+        match lib(|| (b.len(), b.is_empty(), b.can_push(), b.capacity())) {
+            Err(p) => out.v("C19", "panic", format!("len/is_empty/can_push/capacity panicked: {}", p)),
+            Ok((len, empty, can, cap)) => {
+                if len != self.stored {
+                    out.v("C19", "len", format!("zero-sized elements: len()={} but {} elements are stored", len, self.stored));
+                }
+                if empty != (self.stored == 0) {
+                    out.v("C19", "is-empty", format!("zero-sized elements: is_empty()={} with {} stored elements", empty, self.stored));
+                }
+                if can != (self.stored < self.cap) {
+                    out.v("C19", "can-push", format!("zero-sized elements: can_push()={} with {} stored elements and capacity {}", can, self.stored, self.cap));
+                }
+                if cap != self.cap {
+                    out.v("C19", "capacity", format!("zero-sized elements: capacity()={} for a buffer created with capacity {}", cap, self.cap));
+                }
+            }
+        }
+        if zdrops() != 0 {
+            out.v("C19", "dropped-while-alive", format!("{} zero-sized elements were dropped by the buffer while it is alive (stored or owned by the caller after pop())", zdrops()));
+        }
+    }
+    fn fingerprint(&self) -> Vec<u8> {
+        self.hist.clone()
+    }
+    fn finish(mut self, out: &mut StepOut) {
+        let b = self.buf.take();
+        if let Err(p) = lib(|| drop(b)) {
+            out.v("C19", "panic", format!("dropping the buffer panicked: {}", p));
+        }
+        if zdrops() != self.stored {
+            out.v("C19", "leftover-drop-count", format!("{} zero-sized elements were stored when the buffer was dropped, {} were dropped", self.stored, zdrops()));
+        }
+        self.popped.clear();
+        ZDROPS.with(|c| c.set(0));
+    }
+}
+
 // ------------------------------------------------- large / unusual capacities
 
 /// a user-defined backing array whose length (96) is neither <= 64 nor a power of two
@@ -572,6 +702,135 @@ impl System for HeapSys {
             v.extend(harness::norm_with(&format!("{:?}", n), &mut name));
         }
         v
+    }
+    fn finish(self, _out: &mut StepOut) {}
+}
+
+
+// ---------------------------------------------------------------------------------------------
+// Scripted heap histories with many nodes (pairing heap as a priority queue of N = 1 000 and
+// 65 538 elements): ascending, descending, equal and zig-zag key orders, then remove-min until
+// empty, resp. removal of every second node first. Runs on a 256 KiB thread like the burst
+// scripts: the unchanged heap is iterative; a merge whose recursion depth is proportional to the
+// number of children of the removed node overflows that stack.
+
+#[derive(Clone, Copy, Debug, PartialEq)]
+pub enum HeapScriptOp {
+    Run(u8),
+}
+
+pub struct HeapScript {
+    ran: Option<u8>,
+}
+
+const HS_SIZES: [usize; 2] = [1000, 65538];
+
+fn heap_script(pattern: u8, n: usize, out: &mut StepOut) {
+    let key = |i: usize| -> u32 {
+        match pattern {
+            0 => i as u32,
+            1 => (n - i) as u32,
+            2 => 7,
+            _ => if i % 2 == 0 { i as u32 } else { (n - i) as u32 },
+        }
+    };
+    let mut nodes: Vec<Box<HeapNode<u32>>> = (0..n).map(|i| Box::new(HeapNode::new(key(i)))).collect();
+    let mut heap: PairingHeap<u32> = PairingHeap::new();
+    let mut member = vec![false; n];
+    for i in 0..n {
+        let p: *mut HeapNode<u32> = &mut *nodes[i];
+        if let Err(e) = lib(|| unsafe { heap.insert(&mut *p) }) {
+            out.v("C20", "panic", format!("insert number {} of {} panicked: {}", i + 1, n, e));
+            std::mem::forget(nodes);
+            return;
+        }
+        member[i] = true;
+    }
+    let mut left = n;
+    // pattern 3: every second node is removed by address first
+    if pattern == 3 {
+        for i in (0..n).step_by(2) {
+            let p: *mut HeapNode<u32> = &mut *nodes[i];
+            if let Err(e) = lib(|| unsafe { heap.remove(&mut *p) }) {
+                out.v("C20", "panic", format!("remove(node {}) panicked: {}", i, e));
+                std::mem::forget(nodes);
+                return;
+            }
+            member[i] = false;
+            left -= 1;
+        }
+    }
+    let mut last = 0u32;
+    while left > 0 {
+        let m = match heap.peek_min() {
+            Some(m) => m.as_ptr(),
+            None => {
+                out.v("C20", "peek-min", format!("peek_min() is None although {} of {} nodes are members", left, n));
+                std::mem::forget(nodes);
+                return;
+            }
+        };
+        let k = unsafe { **m };
+        if k < last {
+            out.v("C20", "peek-min", format!("remove-min sequence is not sorted: key {} after key {} ({} of {} nodes left)", k, last, left, n));
+            std::mem::forget(nodes);
+            return;
+        }
+        last = k;
+        if let Err(e) = lib(|| unsafe { heap.remove(&mut *m) }) {
+            out.v("C20", "panic", format!("remove(min) panicked with {} of {} nodes left: {}", left, n, e));
+            std::mem::forget(nodes);
+            return;
+        }
+        left -= 1;
+    }
+    if heap.peek_min().is_some() {
+        out.v("C20", "peek-min", "peek_min() is Some after every member was removed".to_string());
+    }
+    let _ = member;
+    let _ = harness::take_alloc_counts();
+}
+
+impl System for HeapScript {
+    type Op = HeapScriptOp;
+    fn new(_cfg: &Cfg) -> Self {
+        HeapScript { ran: None }
+    }
+    fn enabled(&self) -> Vec<HeapScriptOp> {
+        if self.ran.is_some() {
+            vec![]
+        } else {
+            (0..(4 * HS_SIZES.len()) as u8).map(HeapScriptOp::Run).collect()
+        }
+    }
+    fn apply(&mut self, op: HeapScriptOp, out: &mut StepOut) {
+        let HeapScriptOp::Run(i) = op;
+        self.ran = Some(i);
+        let (pattern, n) = (i % 4, HS_SIZES[(i / 4) as usize]);
+        let name = format!("script|C20|ds.heapscript(x=0)|{:?}|n={}", op, n);
+        let res = std::thread::scope(|sc| {
+            std::thread::Builder::new()
+                .name(name)
+                .stack_size(256 * 1024)
+                .spawn_scoped(sc, || {
+                    let mut o = StepOut::default();
+                    heap_script(pattern, n, &mut o);
+                    o
+                })
+                .expect("spawn script thread")
+                .join()
+        });
+        match res {
+            Ok(o) => {
+                out.viol.extend(o.viol);
+                out.corrupt |= o.corrupt;
+                out.o(&format!("pattern {} n {} ok", pattern, n));
+            }
+            Err(_) => out.v("C20", "panic", "the script thread panicked outside a library call".to_string()),
+        }
+    }
+    fn fingerprint(&self) -> Vec<u8> {
+        vec![self.ran.map_or(255, |v| v)]
     }
     fn finish(self, _out: &mut StepOut) {}
 }
